@@ -34,9 +34,7 @@ from props import c08
 from props.c08 import qs, fl, EPS, KB, bspl_all, full_knots, space_tag, make_space, build, space_info, spinfo_exact, \
     parse_vec, parse_mat, model_par, head, is_small_periodic
 
-K6 = 'splines._build_integrals:periodic-nonuniform'
 K7 = 'splines._build_integrals:uniform-cubic-clamped-1-2-cells'
-K10 = 'spline_interpolators.collocation_matrix:periodic-ncells==degree'
 _NC = {}
 
 
@@ -169,7 +167,7 @@ def requests(c, r):
     if c['solve']:
         out['quad'] = 'ip.quad %s | %s | %s' % (h, r['knots'], r['xs'])
         out['interp'] = 'ip.interpm %s %d | %s | %s | %s' % (h, r['nbasis'], r['knots'], r['xs'], ' '.join(c['data']))
-        if spd['kind'] == 'uniform' and spd['periodic'] and not is_small_periodic(spd):
+        if spd['kind'] == 'uniform' and spd['periodic']:
             out['colloc'] = 'ip.colloc %s | %s | %s' % (h, r['knots'], r['xs'])
             if r['nbasis'] <= 10:
                 out['inverse'] = 'ip.inverse %s | %s | %s' % (h, r['knots'], r['xs'])
@@ -177,11 +175,8 @@ def requests(c, r):
 
 
 def defect_key(spd, cubic):
-    """the known defect classes of the unchanged tree, most specific first"""
-    if is_small_periodic(spd):
-        return K10
-    if spd['periodic'] and not spd['uniform']:
-        return K6
+    """the one known defect class of the current tree (periodic non-uniform integrals and periodic ncells == degree
+    were repaired in /repo by 38b0bf4 and 6a5dc09: they are ordinary strict cases)"""
     if cubic and not spd['periodic'] and spd['nc'] <= 2:
         return K7
     return None
@@ -194,13 +189,13 @@ def check_case(chk, c, r, m, stats):
     if isinstance(r, tuple):
         what = 'timeout' if r[0] == 'timeout' else 'raised %s: %s' % (r[1], r[2])
         chk.count((spd['breaks'], spd['p'], spd['periodic']), stratum='quad:' + tag + ':exception', sample={'space': spd, 'outcome': what})
-        chk.violation(K10 if is_small_periodic(spd) else 'spline_interpolators.get_quadrature_coefficients:exception:%s' % tag,
+        chk.violation('spline_interpolators.get_quadrature_coefficients:exception:%s' % tag,
                       'quadrature on %s (%d cells): %s' % (tag, spd['nc'], what), dict(rep, observed=what))
         return
     sp = spinfo_exact(spd, r)
     p, nb, ncoef = sp['p'], sp['nb'], sp['ncoef']
     known = defect_key(spd, sp['cubic'])
-    cls = {K6: ':periodic-nonuniform', K7: ':cubic-clamped-1-2-cells', K10: ':ncells<=degree', None: ''}[known]
+    cls = ':cubic-clamped-1-2-cells' if known else (':ncells<=degree' if is_small_periodic(spd) else '')
     a, b = [qparse(t) for t in r['domain']]
     L = float(b - a)
     If = [qparse(t) for t in r['integrals'].split()]
@@ -219,7 +214,7 @@ def check_case(chk, c, r, m, stats):
         return [v[k] + (v[nb + k] if k < p else 0) for k in range(nb)] if sp['periodic'] else list(v)
     bound_i = 64 * (p + 2) ** 2 * EPS * L
     erri = max(abs(float(x - y)) for x, y in zip(fold(If), fold(Itrue))) if len(If) == ncoef else float('inf')
-    ikey = K6 if (spd['periodic'] and not spd['uniform']) else (K7 if known == K7 else None)
+    ikey = known
     if len(If) != ncoef or erri > bound_i:
         if ikey:
             chk.violation(ikey, 'stored basis integrals differ from the exact integrals by %.3g on %s' % (erri, tag), rep_i)
@@ -290,9 +285,7 @@ def check_case(chk, c, r, m, stats):
     if 'quad' in m:
         mq = m['quad']
         if not mq.startswith('ok'):
-            if known != K10:
-                raise core.BrokenCheck('model quadrature answers %s on %s' % (mq, tag))
-            return
+            raise core.BrokenCheck('model quadrature answers %s on %s' % (mq, tag))
         wm = parse_vec(mq)
         errw = max(abs(float(x - y)) for x, y in zip(wm, wf))
         if errw > bound_w:
@@ -313,8 +306,8 @@ def check_case(chk, c, r, m, stats):
         if known is None and not raw and sum(wm) != b - a:
             chk.violation('spline_interpolators.get_quadrature_coefficients:model:sum', 'the model weights do not sum to the domain length on %s' % tag,
                           dict(rep_i, kind='model-only'), no_input=True)
-        if known == K6 and sum(wm) != b - a:
-            stats['model_refutes_periodic_nonuniform'] += 1
+        if known is None and spd['periodic'] and not spd['uniform'] and not raw:
+            stats['periodic_nonuniform_weight_sum_exact_on_model'] += 1
         if known == K7 and sum(Im) != b - a:
             stats['model_refutes_cubic_clamped_small'] += 1
         # certificate theorem on uniform periodic spaces
@@ -359,7 +352,7 @@ def coq_crosscheck(chk, cases, results, answers):
 
 STATS0 = {'max_ratio_integrals': 0.0, 'max_ratio_weights': 0.0, 'max_ratio_weight_sum': 0.0, 'max_ratio_interpolant': 0.0,
           'integral_formula_clamped_exact': 0, 'duality_exact_on_model': 0, 'equal_weight_certificates': 0,
-          'model_refutes_periodic_nonuniform': 0, 'model_refutes_cubic_clamped_small': 0}
+          'periodic_nonuniform_weight_sum_exact_on_model': 0, 'model_refutes_cubic_clamped_small': 0}
 
 UNCOVERED = [
     'integral_formula_clamped (the degree-raised evaluation of _build_integrals returns (t_{j+p+1}-t_j)/(p+1)) is not proved: '
@@ -369,8 +362,9 @@ UNCOVERED = [
     'all weights equal dx on every uniform periodic space: proved in certificate form only (c09_weights_equal_cert); the '
     'hypotheses are checked per instance on the model',
     'rounding, LAPACK / SuperLU transposed solves are not modelled (bounds)',
-    'REFUTED, not uncovered: periodic non-uniform spaces (c09_quadrature_periodic_nonuniform_refuted) and uniform-cubic clamped '
-    'spaces with 1-2 cells (c09_integrals_cubic_clamped_small_refuted); known findings',
+    'weights of a periodic space sum to the period for ALL spaces (needs the integral formula): checked exactly on the model '
+    'for every tested space, uniform and non-uniform, ncells == degree included',
+    'REFUTED, not uncovered: uniform-cubic clamped spaces with 1-2 cells (c09_integrals_cubic_clamped_small_refuted); known finding',
 ]
 
 
